@@ -90,6 +90,16 @@ func genConfig(rng *rand.Rand) *genesis.GenesisConfig {
 		a := rAddr(rng)
 		p := &definition.PillarInfo{Name: fmt.Sprintf("pillar-%d-%d", i, rng.Intn(1000)), BlockProducingAddress: a, StakeAddress: a,
 			RewardWithdrawAddress: a, Amount: amt(rng), RegistrationTime: cfg.GenesisTimestampSec, GiveDelegateRewardPercentage: 100, PillarType: definition.LegacyPillarType}
+		// pillars in every life-cycle state the record can express: active, revoked (RevokeTime set; the validators still
+		// count its Amount against the pillar contract's ZNN), legacy / regular type, odd percentages
+		switch rng.Intn(4) {
+		case 0:
+			p.RevokeTime = cfg.GenesisTimestampSec - int64(rng.Intn(100000))
+		case 1:
+			p.PillarType = definition.NormalPillarType
+			p.GiveBlockRewardPercentage = uint8(rng.Intn(101))
+			p.GiveDelegateRewardPercentage = uint8(rng.Intn(101))
+		}
 		cfg.PillarConfig.Pillars = append(cfg.PillarConfig.Pillars, p)
 		pillarTotal.Add(pillarTotal, p.Amount)
 		cfg.PillarConfig.Delegations = append(cfg.PillarConfig.Delegations, &definition.DelegationInfo{Name: p.Name, Backer: a})
